@@ -594,7 +594,7 @@ func main() {
 	r := cq.NewRNG(seed)
 	nr = cq.NewRNG(seed ^ 0x9e3779b97f4a7c15)
 	s := cases.New("C03", dir, "LW.Corr.C03",
-		"FIPS-197 C.1 first; corpus: 16-byte FOpts through EncryptFOpts/DecryptFOpts (C03-1), FPort 0 with empty FRMPayload through DecryptFRMPayload (C05-1). func EncryptFRMPayload: payload lengths 0,1,15,16,17,31,32,33,255,256 + random (thorough: every length 0..255 in both directions + random up to 600), one 4112-byte payload (257 blocks: counter byte wraps), counters >= 2^16 in 70%, both directions; func EncryptFOpts: every length 0..15 x aFCntDown x direction, 16..20 (error). PHYPayload methods: frames with MAC commands in FOpts (0..15 bytes) and application payload, commands on port 0, no port, raw FOpts 16..20 bytes, an unencodable command in FOpts, raw (undecodable) bytes, FPort 0 together with FOpts (counter choice boundary), FPort absent with a non-empty FRMPayload (lengths 1..40, both directions, Encrypt and Decrypt); Encrypt then Decrypt chains; wrong payload types. Caller's memory: frames whose single payload object (FRMPayload, or a raw FOpts element) is kept by the caller and lives inside a guarded buffer with spare capacity 0/5/16/31: after Encrypt/Decrypt the buffer is unchanged, the stored payload shares no memory with it, and the same object put into a second frame (other DevAddr, FCnt + 1) gives that frame's model ciphertext (frame terms printed from a private copy of the plaintext). MHDR Major drawn from 0..3. Foreign Payload types: FRMPayload / FOpts elements that do not come from the library (framefmt.Opaque alone, [Opaque, DataPayload], [DataPayload, Opaque, Opaque], [MAC commands, Opaque], [Opaque, MAC commands], a clocksync.Command on port 202) through Encrypt* and Decrypt* of the encrypted frame. DecodeFRMPayloadToMACCommands on frames with a payload for FPort absent / 0 / 1..255 (refused unless FPort = 0, C03-2). FPort sweep of the FOpts methods (FPort absent, 1, 2, 127, 128, 222..225, 254, 255; thorough every FPort) x 4 MTypes. Caller's slices: one []Payload slice (FRMPayload message, or 1-3 FOpts commands / raw FOpts) kept by the caller and put into three frames (FCnt + 1, other DevAddr, other key) that are encrypted in turn - each an ordinary case printed from the original objects; the slice must still hold them afterwards (caller-slice-modified:). Every exported-function call is also repeated from 8 goroutines at once. History: unrelated library calls (internal/noise) before every compared call; neighbour families of the exported functions run back to back (base call, then the same call with one argument changed: single FCnt bits 16, 31, one more high and one low bit, FCnt + 2^16, direction, one DevAddr bit, key zeroed, one key bit, a different key that agrees with the base key under CRC-32 x3 / Adler-32 / xor-folds / shared prefix or suffix (internal/collide), a longer payload with the same prefix, aFCntDown; then the base call again), each compared with model and specification; every exported-function call is repeated three times later in the process (reverse, same, shuffled order) and must give its first result. Go-side: applying a function twice restores the input. A case is non-trivial unless its byte string is empty.")
+		"FIPS-197 C.1 first; corpus: 16-byte FOpts through EncryptFOpts/DecryptFOpts (C03-1), FPort 0 with empty FRMPayload through DecryptFRMPayload (C05-1). func EncryptFRMPayload: payload lengths 0,1,15,16,17,31,32,33,255,256 + random (thorough: every length 0..255 in both directions + random up to 600), one 4112-byte payload (257 blocks: counter byte wraps), counters >= 2^16 in 70%, both directions; func EncryptFOpts: every length 0..15 x aFCntDown x direction, 16..20 (error). PHYPayload methods: frames with MAC commands in FOpts (0..15 bytes) and application payload, commands on port 0, no port, raw FOpts 16..20 bytes, an unencodable command in FOpts, raw (undecodable) bytes, FPort 0 together with FOpts (counter choice boundary), FPort absent with a non-empty FRMPayload (lengths 1..40, both directions, Encrypt and Decrypt); Encrypt then Decrypt chains; wrong payload types. Caller's memory: frames whose single payload object (FRMPayload, or a raw FOpts element) is kept by the caller and lives inside a guarded buffer with spare capacity 0/5/16/31: after Encrypt/Decrypt the buffer is unchanged, the stored payload shares no memory with it, and the same object put into a second frame (other DevAddr, FCnt + 1) gives that frame's model ciphertext (frame terms printed from a private copy of the plaintext). MHDR Major drawn from 0..3. Foreign Payload types: FRMPayload / FOpts elements that do not come from the library (framefmt.Opaque alone, [Opaque, DataPayload], [DataPayload, Opaque, Opaque], [MAC commands, Opaque], [Opaque, MAC commands], a clocksync.Command on port 202) through Encrypt* and Decrypt* of the encrypted frame. DecodeFRMPayloadToMACCommands on frames with a payload for FPort absent / 0 / 1..255 (refused unless FPort = 0, C03-2). FPort sweep of the FOpts methods, each FPort with a payload / without (nil list) / without (zero-length list) (FPort absent, 1, 2, 127, 128, 222..225, 254, 255; thorough every FPort) x 4 MTypes. Caller's slices: one []Payload slice (FRMPayload message, or 1-3 FOpts commands / raw FOpts) kept by the caller and put into three frames (FCnt + 1, other DevAddr, other key) that are encrypted in turn - each an ordinary case printed from the original objects; the slice must still hold them afterwards (caller-slice-modified:). Every exported-function call is also repeated from 8 goroutines at once. History: unrelated library calls (internal/noise) before every compared call; neighbour families of the exported functions run back to back (base call, then the same call with one argument changed: single FCnt bits 16, 31, one more high and one low bit, FCnt + 2^16, direction, one DevAddr bit, key zeroed, one key bit, a different key that agrees with the base key under CRC-32 x3 / Adler-32 / xor-folds / shared prefix or suffix (internal/collide), a longer payload with the same prefix, aFCntDown; then the base call again), each compared with model and specification; every exported-function call is repeated three times later in the process (reverse, same, shuffled order) and must give its first result. Go-side: applying a function twice restores the input. A case is non-trivial unless its byte string is empty.")
 	s.ShardSize = 60
 	// official vector
 	fipsKey := make([]byte, 16)
@@ -719,16 +719,22 @@ func main() {
 				ports = append(ports, q)
 			}
 		}
-		for _, port := range ports {
-			for _, mt := range []lorawan.MType{lorawan.UnconfirmedDataUp, lorawan.UnconfirmedDataDown, lorawan.ConfirmedDataUp, lorawan.ConfirmedDataDown} {
+		for pi, port := range ports {
+			for mi, mt := range []lorawan.MType{lorawan.UnconfirmedDataUp, lorawan.UnconfirmedDataDown, lorawan.ConfirmedDataUp, lorawan.ConfirmedDataDown} {
 				sd := r.U64()
+				// payload shape: a payload, none (nil list), none (zero-length list) - the counter choice depends on FPort alone
+				shape := (pi + mi/2) % 3
 				mk := func() lorawan.PHYPayload {
 					rr := cq.NewRNG(sd)
 					o := framefmt.Opt{MType: mt, Port: port, FOptsBytes: 2 + rr.Intn(13), FCntHigh: port%3 != 0}
-					if port > 0 {
-						o.FRMLen = rr.Intn(12)
+					if port > 0 && shape == 0 {
+						o.FRMLen = 1 + rr.Intn(12)
 					}
-					return dataFrame(rr, o)
+					q := dataFrame(rr, o)
+					if shape == 2 {
+						q.MACPayload.(*lorawan.MACPayload).FRMPayload = []lorawan.Payload{}
+					}
+					return q
 				}
 				k := key(r)
 				methCase(s, 0, mk(), k, "meth-port-sweep", fmt.Sprintf("port=%d:", port))
